@@ -23,10 +23,15 @@ text = """## 9. Seeded changes
 Fresh sub-agents were each given only the text of one property and a scratch
 worktree of `/repo`, and asked for two changes that break the property while
 the library still compiles and the whole existing test suite still passes, each
-with a demonstration test. There were two rounds: variants A/B, and variants
-C/D for which the agents were asked for triggers unlike the obvious ones (an
-unusual but legal configuration, a multi-step sequence, a storage fault, a
-boundary instant, an integrator-supplied extension). Every change kept here was confirmed by
+with a demonstration test. There were several rounds: variants A/B; C/D, for
+which the agents were asked for triggers unlike the obvious ones (an unusual
+but legal configuration, a multi-step sequence, a storage fault, a boundary
+instant, an integrator-supplied extension); E/F ("changes that hide well":
+sibling paths, store behaviours, concurrency); G/H (integrator-supplied
+implementations, feature interactions, value normalisation, state that
+outlives a request, error-path ordering). After the last round every kept
+change was applied again to `/repo` HEAD and its checks re-run with the final
+harness (`reseed.py`); the table shows those results. Every change kept here was confirmed by
 `seedrun.py` on a scratch worktree of `/repo` HEAD (suite passes with the
 change; the demonstration fails with it and passes without it) and then the
 property's quick check was run against that worktree (`VERIF_REPO=<worktree>
